@@ -1,4 +1,6 @@
 #!/bin/bash
-# full regression of every kept seeded change against the quick checks (scratch worktrees; /repo untouched)
+# regression of the kept seeded changes against the quick checks (scratch worktrees; /repo untouched)
+# usage: ./regress.sh [glob under seeded/, default *]     - results: merge with mergeregress.py <snapshot dir>
 cd "$(dirname "$0")" 2>/dev/null
-for d in seeded/*/; do n=$(basename $d); python3 seedeval.py eval2 $n; done
+pat=${1:-*}
+for d in seeded/$pat/; do n=$(basename $d); python3 seedeval.py eval2 $n; done
